@@ -8,7 +8,7 @@
    every fuel for which the model returns a result (fuel only bounds the
    traversal of replacement nodes, which is not structural). *)
 From PyGql Require Import Lang.VisitorModel Proofs.VisitorProofs Proofs.VisitorTermination
-                          Proofs.VisitorLocality Proofs.VisitorNoCrash Lang.VisitorEq Run.C18run Proofs.VisitorEqProofs.
+                          Proofs.VisitorLocality Proofs.VisitorNoCrash Lang.VisitorCross Proofs.VisitorCrossProofs Lang.VisitorEq Run.C18run Proofs.VisitorEqProofs.
 
 (* The model refines the declarative visit: the tree it returns is the
    top-down edit [apply] under the composed decision function of the chain, and
@@ -298,6 +298,34 @@ Theorem C18_crash_conditions_needed :
 Proof. split; [exact required_delete_crashes|exact other_class_crashes]. Qed.
 Print Assumptions C18_crash_conditions_needed.
 
+(* ---- replacements of another class (Lang/VisitorCross.v) ----
+   [visit] answers Crash 1 when enter returns a node of another class.  The
+   code runs the body of the method selected for the ORIGINAL class on the
+   replacement; [visitx] says what that does (types: nothing; a Variable outside
+   object fields: nothing; other values: the replacement's own children; a
+   spread replaced by an inline fragment / field: its directives only; ...).
+   enter is called once, on the original, and leave once, on the replacement.
+   [visitx] is the model the correspondence runs; it is a conservative
+   extension: wherever [visit] -- about which all theorems above are -- answers
+   Ok, [visitx] gives the same trace and the same tree. *)
+Theorem C18_cross_conservative : forall vs fuel n p,
+  (visit fuel vs n = Ok p -> forall b, visitx fuel vs b n = Ok p) /\
+  (visit_top fuel vs n = Ok p -> visit_topx fuel vs n = Ok p).
+Proof.
+  intros vs fuel n p. split; [apply visitx_conservative|apply visit_topx_conservative].
+Qed.
+Print Assumptions C18_cross_conservative.
+
+(* a type replaced by a type of another class: the enter block of the original
+   followed directly by the leave block of the replacement *)
+Theorem C18_cross_type : forall vs fuel (t t' : ty) tr0,
+  chain_enter 0 vs (NType t) = (tr0, ECont (NType t')) ->
+  kind_of (NType t) <> kind_of (NType t') ->
+  forall tr2, chain_leave 0 vs (NType t') = Some tr2 ->
+  forall b, visitx (S fuel) vs b (NType t) = Ok (tr0 ++ tr2, Some (NType t')).
+Proof. exact visitx_cross_type. Qed.
+Print Assumptions C18_cross_type.
+
 (* ---- the oracle of the correspondence harness ----
    The boolean comparison used to compare the implementation's recorded trace
    and result tree with the model's (Lang/VisitorEq.v: class, loc and every
@@ -318,6 +346,7 @@ Theorem C18_oracle_sound : forall i o',
   match model_C18 i with
   | Ok o => o = o'
   | Crash 3 => o' = OCrash
+  | Crash 1 => o' = OCrash
   | Crash 2 => o' = OIllFormed
   | _ => False
   end.
